@@ -280,25 +280,29 @@ theorem finishWilson_fl (conf : Confidence (RR fl)) (m s : RR fl) :
             .err (.interval .invalidBounds)
           else .ok (.twoSided (inj (max (fl (m.val - s.val)) 0)) (inj (min (fl (m.val + s.val)) 1)))
       | .upper _ =>
-          if 1 < max (fl (m.val - s.val)) 0 then .err (.interval .invalidBounds)
-          else .ok (.twoSided (inj (max (fl (m.val - s.val)) 0)) (inj 1))
+          .ok (.twoSided (inj (min (max (fl (m.val - s.val)) 0) 1)) (inj 1))
       | .lower _ =>
-          if min (fl (m.val + s.val)) 1 < 0 then .err (.interval .invalidBounds)
-          else .ok (.twoSided (inj 0) (inj (min (fl (m.val + s.val)) 1))) := by
+          .ok (.twoSided (inj 0) (inj (max (min (fl (m.val + s.val)) 1) 0))) := by
   have e1 : fmax (sub m s) (zero : RR fl) = inj (max (fl (m.val - s.val)) 0) := by
     apply RR.ext'; rw [fmax_val]; rfl
   have e2 : fmin (add m s) (one : RR fl) = inj (min (fl (m.val + s.val)) 1) := by
     apply RR.ext'; rw [fmin_val]; rfl
+  have e3 : fmin (inj (max (fl (m.val - s.val)) 0) : RR fl) (one : RR fl)
+      = inj (min (max (fl (m.val - s.val)) 0) 1) := by
+    apply RR.ext'; rw [fmin_val]; rfl
+  have e4 : fmax (inj (min (fl (m.val + s.val)) 1) : RR fl) (zero : RR fl)
+      = inj (max (min (fl (m.val + s.val)) 1) 0) := by
+    apply RR.ext'; rw [fmax_val]; rfl
   cases conf with
   | twoSided l =>
     simp only [Proportion.finishWilson, e1, e2, Interval.new, RR.gt_iff, inj_val]
     split_ifs <;> rfl
   | upper l =>
-    simp only [Proportion.finishWilson, e1, Interval.new, RR.gt_iff, inj_val, RR.one_val]
-    split_ifs <;> rfl
+    simp only [Proportion.finishWilson, e1, e3, Interval.new, RR.gt_iff, inj_val, RR.one_val]
+    rw [if_neg (not_lt.mpr (min_le_right _ _))]; rfl
   | lower l =>
-    simp only [Proportion.finishWilson, e2, Interval.new, RR.gt_iff, inj_val, RR.zero_val]
-    split_ifs <;> rfl
+    simp only [Proportion.finishWilson, e2, e4, Interval.new, RR.gt_iff, inj_val, RR.zero_val]
+    rw [if_neg (not_lt.mpr (le_max_right _ _))]; rfl
 
 /-- `Proportion.finishWilson` only ever succeeds with an ordered two-sided interval of
     proportions: both bounds lie in `[0, 1]`, whatever the rounding function does -/
@@ -314,20 +318,21 @@ theorem finishWilson_ok_inv (conf : Confidence (RR fl)) (m s : RR fl) (I : Inter
     exact ⟨_, _, rfl, le_max_right _ _, not_lt.mp hg, min_le_right _ _⟩
   | upper l =>
     simp only at h
-    split_ifs at h with hg
     cases h
-    exact ⟨_, _, rfl, le_max_right _ _, not_lt.mp hg, le_refl _⟩
+    exact ⟨_, _, rfl, le_min (le_max_right _ _) zero_le_one, min_le_right _ _, le_refl _⟩
   | lower l =>
     simp only at h
-    split_ifs at h with hg
     cases h
-    exact ⟨_, _, rfl, le_refl _, not_lt.mp hg, min_le_right _ _⟩
+    exact ⟨_, _, rfl, le_refl _, le_max_right _ _, max_le (min_le_right _ _) zero_le_one⟩
 
 /-- the only documented error `Proportion.finishWilson` can return is `InvalidBounds` -/
 theorem finishWilson_err_inv (conf : Confidence (RR fl)) (m s : RR fl) (e : Err (RR fl))
     (h : Proportion.finishWilson conf m s = .err e) : e = .interval .invalidBounds := by
   rw [finishWilson_fl] at h
-  cases conf <;> simp only at h <;> split_ifs at h <;> cases h <;> rfl
+  cases conf <;> simp only at h
+  · split_ifs at h <;> cases h <;> rfl
+  · cases h
+  · cases h
 
 /-- `ci_wilson` only ever succeeds with an ordered two-sided interval whose bounds are
     proportions (`0 ≤ a ≤ b ≤ 1`): the clamp of `ci_wilson` holds at every rounding function -/
@@ -518,20 +523,25 @@ theorem abs_min_one_sub_le {x y : ℝ} (hy : y ≤ 1) : |min x 1 - y| ≤ |x - y
 theorem finishWilson_close {ε : ℝ} (confF : Confidence (RR fl)) (conf : Confidence Rex)
     (hkind : confF.kind = conf.kind) (mF sF : RR fl) (m s : Rex)
     (hlo : 0 ≤ m.val - s.val) (hhi : m.val + s.val ≤ 1)
+    (hlo1 : m.val - s.val ≤ 1) (hhi0 : 0 ≤ m.val + s.val)
     (h1 : |fl (mF.val - sF.val) - (m.val - s.val)| ≤ ε)
     (h2 : |fl (mF.val + sF.val) - (m.val + s.val)| ≤ ε) :
     WilsonClose ε (Proportion.finishWilson confF mF sF) (Proportion.finishWilson conf m s) := by
   have hε : 0 ≤ ε := le_trans (abs_nonneg _) h1
   have ea : max (m.val - s.val) 0 = m.val - s.val := max_eq_left hlo
   have eb : min (m.val + s.val) 1 = m.val + s.val := min_eq_left hhi
+  have ea' : min (m.val - s.val) 1 = m.val - s.val := min_eq_left hlo1
+  have eb' : max (m.val + s.val) 0 = m.val + s.val := max_eq_left hhi0
   have ca := le_trans (abs_max_zero_sub_le (x := fl (mF.val - sF.val)) hlo) h1
   have cb := le_trans (abs_min_one_sub_le (x := fl (mF.val + sF.val)) hhi) h2
+  have ca' := le_trans (abs_min_one_sub_le (x := max (fl (mF.val - sF.val)) 0) hlo1) ca
+  have cb' := le_trans (abs_max_zero_sub_le (x := min (fl (mF.val + sF.val)) 1) hhi0) cb
   intro aF bF a b hF hE
   rw [finishWilson_fl] at hF hE
   cases confF <;> cases conf <;> simp [Confidence.kind] at hkind <;>
-    simp only at hF hE <;> split_ifs at hF hE <;> cases hF <;> cases hE <;>
-    simp only [inj_val, id, ea, eb, sub_self, abs_zero] <;>
-    first | exact ⟨ca, cb⟩ | exact ⟨ca, hε⟩ | exact ⟨hε, cb⟩
+    simp only at hF hE <;> (try split_ifs at hF hE) <;> cases hF <;> cases hE <;>
+    simp only [inj_val, id, ea, eb, ea', eb', sub_self, abs_zero] <;>
+    first | exact ⟨ca, cb⟩ | exact ⟨ca', hε⟩ | exact ⟨hε, cb'⟩
 
 /-- the same for `ci_wilson`: closeness of the unclamped Wilson bounds computed at `RR fl` to the
     exact Wilson bounds `pLow`, `pHigh` gives `WilsonClose` (`0 < n`, `k ≤ n`; the exact bounds
@@ -560,11 +570,15 @@ theorem ciWilson_close {ε : ℝ} (critF : Crit (RR fl)) (confF : Confidence (RR
   · rw [if_neg pE] at hE; cases hE
   rw [if_pos pF, Outcome.bind_ok] at hF
   rw [if_pos pE, Outcome.bind_ok] at hE
-  refine finishWilson_close confF conf hkind _ _ _ _ ?_ ?_ ?_ ?_ aF bF a b hF hE
+  refine finishWilson_close confF conf hkind _ _ _ _ ?_ ?_ ?_ ?_ ?_ ?_ aF bF a b hF hE
   · rw [Quantile.wilsonCentre_val, Quantile.wilsonSpan_val]
     exact (lower_nonneg n k _ hn hkn).1
   · rw [Quantile.wilsonCentre_val, Quantile.wilsonSpan_val]
     exact (upper_le_one n k _ hn hkn).2
+  · rw [Quantile.wilsonCentre_val, Quantile.wilsonSpan_val]
+    exact (upper_le_one n k _ hn hkn).1
+  · rw [Quantile.wilsonCentre_val, Quantile.wilsonSpan_val]
+    exact (lower_nonneg n k _ hn hkn).2
   · rw [Quantile.wilsonCentre_val, Quantile.wilsonSpan_val]; exact h1
   · rw [Quantile.wilsonCentre_val, Quantile.wilsonSpan_val]; exact h2
 
